@@ -66,17 +66,42 @@ func (crashScen) Gen(r *Rng, cfg GenConfig) any {
 	if r.Chance(2, 3) {
 		c.Prefix = append(c.Prefix, CHOp{Op: "run", Tasks: Shuffled(r, names), JSON: true})
 	}
-	if r.Chance(3, 4) {
-		c.Prefix = append(c.Prefix, CHOp{Op: "write", Path: Pick(r, chFiles), Content: Pick(r, chContents)})
+	// the disk as the prefix leaves it, so that the edit before the killed run and the
+	// revert after it can name a file that exists and its previous content
+	disk := map[string]string{}
+	for k, v := range c.Disk {
+		disk[k] = v
 	}
-	c.Run = CHOp{Op: "run", Tasks: Shuffled(r, Subset(r, names, 3, 4)), JSON: r.Chance(1, 2), Force: r.Chance(1, 8)}
+	for _, op := range c.Prefix {
+		switch op.Op {
+		case "write":
+			disk[op.Path] = op.Content
+		case "delete":
+			delete(disk, op.Path)
+		}
+	}
+	editPath, editOld := "", ""
+	if r.Chance(3, 4) {
+		p := Pick(r, chFiles)
+		if ks := sortedKeys(disk); len(ks) > 0 && r.Chance(2, 3) {
+			p = Pick(r, ks)
+		}
+		nc := Pick(r, chContents)
+		if old, ok := disk[p]; ok && old != nc {
+			editPath, editOld = p, old
+		}
+		c.Prefix = append(c.Prefix, CHOp{Op: "write", Path: p, Content: nc})
+	}
+	c.Run = CHOp{Op: "run", Tasks: Shuffled(r, Subset(r, names, 3, 4)), JSON: r.Chance(1, 2), Force: r.Chance(1, 4)}
 	if len(c.Run.Tasks) == 0 {
 		c.Run.Tasks = []string{Pick(r, names)}
 	}
 	for k := r.Range(2, 3); k > 0; k-- {
 		var cont []CHOp
-		switch r.Intn(3) {
-		case 0, 1:
+		switch k := r.Intn(4); {
+		case k <= 1 && editPath != "": // put the edited file back as it was before the killed run
+			cont = append(cont, CHOp{Op: "write", Path: editPath, Content: editOld})
+		case k <= 2:
 			cont = append(cont, CHOp{Op: "write", Path: Pick(r, chFiles), Content: Pick(r, chContents)})
 		}
 		run := CHOp{Op: "run", Tasks: c.Run.Tasks, JSON: r.Chance(3, 4)}
